@@ -1217,9 +1217,45 @@ def check_sig_read(ctx, rep, rng, tier):
     return cnt
 
 
+def check_hdrstreams_write(ctx, rep, rng, tier):
+    """HeaderStreamsInfo.write (the descriptor of an encoded header): PackInfo.write then UnpackInfo.write(with_crcs=True)"""
+    if not available(ctx, "gen_HeaderStreamsInfo_write"):
+        return 0
+    model = ctx["model"]
+    cnt = 0
+    for i in range(300 if tier == "quick" else 10000):
+        st = rnd_streams(rng, consistent=(i % 4 != 0))
+        if rng.random() < 0.6:          # the shape Header._encode_header builds: one stream, one folder with its CRC
+            pk = rnd_packinfo(rng)
+            pk[1], pk[2], pk[4], pk[5], pk[6] = 1, [rnd_u(rng, 20)], [rng.getrandbits(32)], [], False
+            fo = rnd_folder(rng)
+            fo[5], fo[6] = True, [rng.getrandbits(32)]
+            st = [[pk], [[1, [fo], []]], []]
+        o = ai.HeaderStreamsInfo()
+        o.packinfo = packinfo_from_state(st[0][0]) if st[0] else None
+        o.unpackinfo = unpackinfo_from_state(st[1][0]) if st[1] else None
+        o.substreamsinfo = sub_from_state(st[2][0]) if st[2] else None
+        buf = io.BytesIO()
+        try:
+            o.write(buf)
+            want = [0, [streams_state(o), list(buf.getvalue())]]
+        except Exception as e:  # noqa
+            want = [1, err_code(e)]
+        got = model.call("gen_HeaderStreamsInfo_write", st)
+        if got[0] == 0:
+            got = [0, [norm_streams_tree(got[1][0]), got[1][1]]]
+        cnt += 1
+        rep.dist("translation_HeaderStreamsInfo_write", "ok" if want[0] == 0 else "err%d" % want[1])
+        if got != want:
+            _violation(rep, "the function translated from HeaderStreamsInfo.write disagrees with the Python on the object %r: "
+                            "generated %r, Python %r" % (st, got, want), {"object": st}, "HeaderStreamsInfo.write")
+            return cnt
+    return cnt
+
+
 READER_PARTS = [check_packinfo_read, check_small_functions, check_folder, check_unpackinfo_read, check_substreams_read,
                 check_substreams_default, check_streams_read, check_files_read_pieces, check_files_read, check_sig_read]
-WRITER_PARTS = [check_packinfo_write, check_small_functions, check_folder, check_unpackinfo_write, check_substreams_write, check_streams_write, check_files_write_pieces, check_files_write, check_sig_write]
+WRITER_PARTS = [check_packinfo_write, check_small_functions, check_folder, check_unpackinfo_write, check_substreams_write, check_streams_write, check_files_write_pieces, check_files_write, check_sig_write, check_hdrstreams_write]
 
 
 def _run(ctx, rep, rng, tier, parts, label):
